@@ -150,7 +150,14 @@ def uni (impl : String) : P Verdict := do
            spec := if ok then "isolated" else "NOT-isolated" }
   | _ => pure { modelEq := false, specOk := none, tag := "bad-impl-output" }
 
+/-- `C07.pool kind n nconn <isolated results grouped per connection>`: the real pool, capacity exactly
+the number of (concurrently live, same-worker) connections, must report per connection what each
+connection yields alone. -/
+def pool (impl : String) : P Verdict := do
+  let kind ← tok; let _ ← nat; let _ ← nat; let iso ← text
+  pure (verdictOf impl iso (some iso) [] s!"pool:{kind}")
+
 def handlers : List (String × (String → P Verdict)) :=
-  [("C07.tls", tls), ("C07.http", http), ("C07.tcp", tcp), ("C07.uni", uni)]
+  [("C07.pool", pool), ("C07.tls", tls), ("C07.http", http), ("C07.tcp", tcp), ("C07.uni", uni)]
 
 end Huginn.Drv.C07
